@@ -514,6 +514,47 @@ func checkDiffsTo(c *Ctx, r *goan.Rel) {
 			}
 			return true
 		})
+		// an early return that leaves the 'deleted' slot empty is only right when the receiver has nothing to lose:
+		// its condition must fail whenever the receiver-emptiness tests fail, whatever the other tests say
+		ast.Inspect(fd.Body, func(n ast.Node) bool {
+			ifs, ok := n.(*ast.IfStmt)
+			if !ok || len(ifs.Body.List) == 0 {
+				return true
+			}
+			ret, ok := ifs.Body.List[len(ifs.Body.List)-1].(*ast.ReturnStmt)
+			if !ok || len(ret.Results) != 3 || goan.Mentions(info, ret.Results[di], recvObj) {
+				return true
+			}
+			atoms := map[string]bool{}
+			boolAtoms(ifs.Cond, atoms)
+			env := map[string]bool{}
+			for a := range atoms {
+				env[a] = true
+			}
+			// receiver-emptiness atoms → false
+			var mark func(e ast.Expr)
+			mark = func(e ast.Expr) {
+				switch x := ast.Unparen(e).(type) {
+				case *ast.BinaryExpr:
+					if x.Op == token.LAND || x.Op == token.LOR {
+						mark(x.X)
+						mark(x.Y)
+						return
+					}
+					if goan.Mentions(info, x, recvObj) && !goan.Mentions(info, x, argObj) {
+						env[goan.ExprString(x)] = false
+					}
+				case *ast.UnaryExpr:
+					if x.Op == token.NOT {
+						mark(x.X)
+					}
+				}
+			}
+			mark(ifs.Cond)
+			c.Check(!boolEval(ifs.Cond, env), rule, fmt.Sprintf("diff.%s.DiffsTo › early return without deleted items needs an empty receiver", recv), c.posOf(pk, ifs.Pos()), "the condition fails whenever the receiver is not empty",
+				fmt.Sprintf("`%s` returns with an empty 'deleted' result although the receiver may hold items (e.g. when only the argument is empty): everything the old spec listed and the new one dropped goes unreported", goan.ExprString(ifs.Cond)))
+			return true
+		})
 	}
 	// re-classify sites with the derived orientation
 	r.Reclassify()
